@@ -166,6 +166,14 @@ M = [
   "                if colour_space == ColourSpace::Unknown || matches!(tf, TransferFunction::Unknown) {", "                if false {"),
  ("c17_app_marker_type_unchecked", "C17", "ty > 3", "crates/jxl-jbr/src/lib.rs",
   "        if ty > 3 {", "        if ty > 7 {"),
+ ("c05_new_alpha_converted_with_channel_depth", "C05", "blend|alpha-plane-depth", "crates/jxl-render/src/blend.rs",
+  "            let bit_depth = image_header.metadata.ec_info[idx].bit_depth;\n            new_grid.buffer_mut()[idx + color_channels].convert_to_float_modular(bit_depth)?;",
+  "            new_grid.buffer_mut()[idx + color_channels].convert_to_float_modular(bit_depth)?;"),
+ ("c05_patch_alpha_converted_with_channel_depth", "C05", "patch|alpha-plane-depth", "crates/jxl-render/src/blend.rs",
+  "                        r[0].convert_to_float_modular(alpha_bit_depth)?;", "                        r[0].convert_to_float_modular(bit_depth)?;"),
+ ("c19_hlg_to_linear_not_odd", "C19", "pair:hlg", "crates/jxl-color/src/tf.rs",
+  "        let a = s.abs();\n        *s = if a <= 0.5 {\n            a * a / 3.0\n        } else {\n            (((a - HLG_C) / HLG_A).exp() + HLG_B) / 12.0\n        }\n        .copysign(*s);",
+  "        let a = *s;\n        *s = if a <= 0.5 {\n            a * a / 3.0\n        } else {\n            (((a - HLG_C) / HLG_A).exp() + HLG_B) / 12.0\n        };"),
  ("c01_cluster_map_decoder_two_dists", "C01", "bound-lost", "crates/jxl-coding/src/lib.rs",
   "            Decoder::parse(bitstream, 1)?\n        };\n        decoder.begin(bitstream)?;", "            Decoder::parse(bitstream, num_dist.min(2))?\n        };\n        decoder.begin(bitstream)?;"),
 ]
